@@ -21,6 +21,8 @@ package tlast
 import (
 	"bufio"
 	verifTloHexPkg "encoding/hex"
+	verifTloErrors "errors"
+	verifTloIO "io"
 	"os"
 	"strconv"
 	"strings"
@@ -258,6 +260,9 @@ func verifTloDecode(path string) string {
 	var s verifTls.Schema
 	rest, err := s.ReadTL1Boxed(data)
 	if err != nil {
+		if verifTloErrors.Is(err, verifTloIO.ErrUnexpectedEOF) {
+			return "err eof"
+		}
 		return "err reject"
 	}
 	var p verifTloPrinter
